@@ -133,7 +133,9 @@ def gen(rng):
                                                                  # (4 %: the partition listing names a mount point twice - stacked mounts)
                                                                  {'mount_order': list(L['mounts']) + [rng.choice(L['vols'])]} if L['vols'] and rng.random() < 0.04 else
                                                                  # (5 %: several mount points of one device - btrfs subvolumes)
-                                                                 {'same_device': list(L['vols'])} if len(L['vols']) >= 2 and rng.random() < 0.08 else {})),
+                                                                 {'same_device': list(L['vols'])} if len(L['vols']) >= 2 and rng.random() < 0.08 else
+                                                                 # (5 %: a volume under automount control - an autofs line before its real line in the mount table)
+                                                                 {'automount': [rng.choice(L['vols'])]} if L['vols'] and rng.random() < 0.05 else {})),
         'procs': procs,
         'dirsalt': rng.randrange(1 << 30),
         'clock': {'start': start.strftime('%Y-%m-%dT%H:%M:%S.%f'), 'utcoffset_s': rng.choice([0, 3600, -18000, 19800, 34200, 50400, -43200]),
